@@ -134,7 +134,7 @@ func genStep(r *plan.Rng, nctx, nshared, nregs int, sharedProb int, heavyOK bool
 // GenC18 builds the world and programs of one run (no schedule yet).
 func GenC18(seed, run uint64, tier, mode string) *plan.Plan {
 	r := plan.NewRng(plan.Derive(seed, run, 18))
-	p := &plan.Plan{V: 1, Property: "C18", Workload: "c18", Mode: mode, Seed: seed, Run: run, Race: true, Cold: mode == "cold"}
+	p := &plan.Plan{V: 1, Property: "C18", Workload: "c18", Mode: mode, Seed: seed, Run: run, Race: true, Cold: mode == "cold" || mode == "coldsync"}
 	maxPrec := uint32(20)
 	switch r.Intn(8) {
 	case 0:
@@ -182,7 +182,7 @@ func GenC18(seed, run uint64, tier, mode string) *plan.Plan {
 	if tier == "thorough" {
 		maxSteps = 120
 	}
-	if mode == "sync" {
+	if mode == "sync" || mode == "coldsync" {
 		// focus on synchronised-but-wrong shared state: few contexts at
 		// distinct high precisions, few tasks, short programs of operations that
 		// reach the package's tables and constants, operands with large
@@ -394,7 +394,7 @@ func runC18(p *plan.Plan, keepLog bool, soloOnly bool) (*plan.Result, *C18Stats)
 	theWorld = w
 	defer func() { theWorld = nil }()
 	gs := globalSnap
-	if p.Mode == "sync" && nSyncSites == 0 {
+	if (p.Mode == "sync" || p.Mode == "coldsync") && nSyncSites == 0 {
 		// the tree under test has no lock, once or atomic: nothing to aim at
 		res.Stats["skipped_no_sync_sites"] = 1
 		res.Sig = planSig(p)
@@ -445,6 +445,13 @@ func runC18(p *plan.Plan, keepLog bool, soloOnly bool) (*plan.Result, *C18Stats)
 				beginOp(soloOpCap)
 				o := Exec(def, &a)
 				n := opSteps()
+				if o.Deadlock {
+					// run alone, the call waits for a lock nobody holds any more: an
+					// earlier call (of this process) left it locked
+					addViol(plan.Violation{Property: "C18", Class: "C18/deadlock", Key: "lock-left-held", Task: ti, Step: si,
+						Detail: fmt.Sprintf("task %d step %d %s, executed alone, waits for a lock that was left held by an earlier operation of this process", ti, si, st.Op)})
+					return true, true
+				}
 				if o.Hang || local+n > soloRunCap {
 					return false, false
 				}
@@ -684,6 +691,11 @@ func genBlindSchedule(p *plan.Plan) *plan.Schedule {
 	sch := &plan.Schedule{First: r.Intn(k)}
 	for t := 0; t < k; t++ {
 		period := uint64([]int{40, 150, 600, 2500, 10000}[r.Intn(5)])
+		if p.Mode == "coldsync" {
+			// short periods: the windows of interest (between a failed look-up
+			// and the lock that follows it) are a few yields wide
+			period = uint64([]int{6, 15, 40, 120}[r.Intn(4)])
+		}
 		at := uint64(1 + r.Intn(int(period)))
 		for j := 0; j < 600; j++ {
 			to := t
